@@ -1,7 +1,7 @@
 //! C18 — explorer JSON and recursive endpoints agree with the index.
 //!
 //! Case line:  RECIPE | TABLES | REQUEST
-//!   RECIPE  := seed index_sats nchildren nplain         (how the chain of the state is generated; the
+//!   RECIPE  := seed flags(1 index_sats, 2 index addresses+runes) nchildren nplain         (how the chain of the state is generated; the
 //!              harness rebuilds the state from it, the model skips it)
 //!   TABLES  := projection of `index.verif_dump()` with inscription ids written as sequence numbers and
 //!              outpoints as indexes into an outpoint table (see `Tables::line`), same reading order as
@@ -21,6 +21,7 @@ const MISSING: u64 = 0xffff_ffff;
 pub struct Recipe {
   pub seed: u64,
   pub index_sats: bool,
+  pub ar: bool, // --index-addresses --index-runes
   pub nchildren: u64,
   pub nplain: u64,
 }
@@ -55,6 +56,9 @@ pub struct Tables {
   pub heights: Vec<(u32, u32)>,
   pub ops: Vec<Op>,
   pub sat_points: Vec<(u64, usize, u64)>, // SAT_TO_SATPOINT restricted to inscribed sats
+  pub index_ar: bool,                      // address index and rune index present
+  pub addresses: Vec<Vec<usize>>,          // SCRIPT_PUBKEY_TO_OUTPOINT for the addresses of interest (outpoint indexes, ascending)
+  pub rune_balances: Vec<(usize, Vec<(u64, u128)>)>, // OUTPOINT_TO_RUNE_BALANCES: outpoint index -> (rune index, amount)
 }
 
 impl Tables {
@@ -121,6 +125,23 @@ impl Tables {
       l.push(*o);
       l.push(*off);
     }
+    l.push(self.index_ar);
+    l.push(self.addresses.len());
+    for a in &self.addresses {
+      l.push(a.len());
+      for o in a {
+        l.push(*o);
+      }
+    }
+    l.push(self.rune_balances.len());
+    for (o, b) in &self.rune_balances {
+      l.push(*o);
+      l.push(b.len());
+      for (r, amt) in b {
+        l.push(*r);
+        l.push(*amt);
+      }
+    }
     l.done()
   }
 }
@@ -135,6 +156,8 @@ pub struct World {
   pub id_to_seq: HashMap<String, u32>,
   pub outpoints: Vec<bitcoin::OutPoint>,     // outpoint table
   pub op_to_ix: HashMap<String, usize>,
+  pub addresses: Vec<bitcoin::Address>,
+  pub rune_names: Vec<String>, // spaced rune names in rune order
   pub consistency: Result<(), String>,
 }
 
@@ -155,6 +178,13 @@ pub fn plan(c: u64) -> (u64, u64) {
   }
 }
 
+/// the k-th address of interest (p2wpkh of a constant hash)
+pub fn address(k: u8) -> bitcoin::Address {
+  use bitcoin::hashes::Hash;
+  let h = bitcoin::WPubkeyHash::from_byte_array([k; 20]);
+  bitcoin::Address::from_script(&bitcoin::ScriptBuf::new_p2wpkh(&h), bitcoin::Network::Regtest).unwrap()
+}
+
 fn null_outpoint() -> bitcoin::OutPoint {
   bitcoin::OutPoint::null()
 }
@@ -170,7 +200,11 @@ fn plain(rng: &mut Rng, tag: &str) -> ord::Inscription {
 impl World {
   pub fn build(r: &Recipe) -> World {
     let mut rng = Rng::new(r.seed);
-    let flags: Vec<&str> = if r.index_sats { vec!["--index-sats"] } else { vec![] };
+    let mut flags: Vec<&str> = if r.index_sats { vec!["--index-sats"] } else { vec![] };
+    if r.ar {
+      flags.push("--index-addresses");
+      flags.push("--index-runes");
+    }
     let mut node = Node::new(&flags);
     let tx_pos = |core: &mockcore::Handle, txid: bitcoin::Txid| core.tx_index(txid);
 
@@ -256,6 +290,58 @@ impl World {
     }
     node.core.mine_blocks(1);
 
+    // runes: commit to a rune name in a taproot output, wait for maturity, then etch with a premine. The reveal
+    // input also carries an inscription, so output 0 of the etching (default output of the premine) is BOTH
+    // inscribed and runic; an edict moves part of the premine to output 1 (runic only). Address 1 further gets an
+    // inscribed-only and a cardinal output, address 2 an inscribed and three cardinal outputs.
+    let cbc = node.fresh_coinbase();
+    let commit_tx = node.core.broadcast_tx(mockcore::TransactionTemplate {
+      inputs: &[(cbc.0, cbc.1, cbc.2, bitcoin::Witness::new())],
+      p2tr: true,
+      ..Default::default()
+    });
+    node.core.mine_blocks(1);
+    let (ch, ct) = tx_pos(&node.core, commit_tx);
+    node.core.mine_blocks(u64::from(ordinals::Runestone::COMMIT_CONFIRMATIONS) - 1);
+    let rune = ordinals::Rune(99246114928149462);
+    let reveal = {
+      let commitment = bitcoin::script::PushBytesBuf::try_from(rune.commitment()).unwrap();
+      let builder = bitcoin::script::Builder::new().push_slice(commitment);
+      let script = plain(&mut rng, "runic").append_reveal_script_to_builder(builder).into_script();
+      let mut witness = bitcoin::Witness::new();
+      witness.push(script.as_bytes());
+      witness.push([]);
+      witness
+    };
+    let runestone = ordinals::Runestone {
+      etching: Some(ordinals::Etching { rune: Some(rune), premine: Some(1000), symbol: Some('R'), ..Default::default() }),
+      edicts: vec![ordinals::Edict { id: ordinals::RuneId::default(), amount: 400, output: 1 }],
+      ..Default::default()
+    };
+    node.core.broadcast_tx(mockcore::TransactionTemplate {
+      inputs: &[(ch, ct, 0, reveal)],
+      outputs: 2,
+      op_return: Some(runestone.encipher()),
+      recipient: Some(address(1)),
+      ..Default::default()
+    });
+    node.core.mine_blocks(1);
+    let cba = node.fresh_coinbase();
+    node.core.broadcast_tx(mockcore::TransactionTemplate {
+      inputs: &[(cba.0, cba.1, cba.2, witness_of(&[plain(&mut rng, "addr1")]))],
+      outputs: 2,
+      recipient: Some(address(1)),
+      ..Default::default()
+    });
+    let cbb2 = node.fresh_coinbase();
+    node.core.broadcast_tx(mockcore::TransactionTemplate {
+      inputs: &[(cbb2.0, cbb2.1, cbb2.2, witness_of(&[plain(&mut rng, "addr2")]))],
+      outputs: 4,
+      recipient: Some(address(2)),
+      ..Default::default()
+    });
+    node.core.mine_blocks(1);
+
     // unbound: an inscription revealed in an input of value zero
     let cbz = node.fresh_coinbase();
     let zero_tx = node.core.broadcast_tx(mockcore::TransactionTemplate {
@@ -336,6 +422,36 @@ impl World {
     op_ix(bitcoin::OutPoint { txid: node.core.tx(1, 0).compute_txid(), vout: 0 }, &mut outpoints);
     op_ix(ord::unbound_outpoint(), &mut outpoints);
     op_ix(null_outpoint(), &mut outpoints);
+    let addresses_of_interest = vec![address(1), address(2)];
+    let mut addresses: Vec<Vec<usize>> = Vec::new();
+    for a in &addresses_of_interest {
+      let spk = a.script_pubkey();
+      let mut outs: Vec<bitcoin::OutPoint> =
+        dump.script_pubkey_to_outpoint.iter().filter(|(s, _)| s[..] == *spk.as_bytes()).flat_map(|(_, o)| o.clone()).collect();
+      // (table order is by txid; the outpoint numbering must not depend on txids)
+      outs.sort_by_key(|o| (node.core.tx_index(o.txid), o.vout));
+      let mut ixs: Vec<usize> = outs.into_iter().map(|o| op_ix(o, &mut outpoints)).collect();
+      ixs.sort();
+      addresses.push(ixs);
+    }
+    let rune_order: Vec<ordinals::RuneId> = dump.rune_to_rune_id.iter().map(|(_, id)| *id).collect();
+    let rune_names: Vec<String> = dump
+      .rune_to_rune_id
+      .iter()
+      .map(|(_, id)| dump.rune_id_to_rune_entry.iter().find(|(i, _)| i == id).map(|(_, e)| e.spaced_rune.to_string()).unwrap_or_default())
+      .collect();
+    let mut rune_balances: Vec<(usize, Vec<(u64, u128)>)> = {
+      let mut v: Vec<(bitcoin::OutPoint, Vec<(ordinals::RuneId, u128)>)> = dump.outpoint_to_rune_balances.clone();
+      v.sort_by_key(|(o, _)| (node.core.tx_index(o.txid), o.vout));
+      v.into_iter()
+        .map(|(o, b)| {
+          let mut b: Vec<(u64, u128)> = b.iter().map(|(id, amt)| (rune_order.iter().position(|x| x == id).unwrap() as u64, *amt)).collect();
+          b.sort();
+          (op_ix(o, &mut outpoints), b)
+        })
+        .collect()
+    };
+    rune_balances.sort();
     let sat_points: Vec<(u64, usize, u64)> = {
       let inscribed: std::collections::HashSet<u64> = dump.sat_to_sequence_number.iter().map(|(s, _)| *s).collect();
       let v: Vec<(u64, ordinals::SatPoint)> = dump.sat_to_satpoint.iter().filter(|(s, _)| inscribed.contains(s)).cloned().collect();
@@ -381,10 +497,13 @@ impl World {
       heights: dump.height_to_last_sequence_number.clone(),
       ops,
       sat_points,
+      index_ar: r.ar,
+      addresses,
+      rune_balances,
     };
     let consistency = check_consistency(&tables);
     let tables_line = tables.line();
-    World { node, index, served, tables, tables_line, ids, id_to_seq, outpoints, op_to_ix, consistency }
+    World { node, index, served, tables, tables_line, ids, id_to_seq, outpoints, op_to_ix, addresses: addresses_of_interest, rune_names, consistency }
   }
 
   fn id(&self, seq: u64) -> ord::InscriptionId {
@@ -464,7 +583,7 @@ impl Req {
         l.push(self.has_page);
         l.push(self.page);
       }
-      6 | 9 => l.push(self.page as i64), // 6: signed index (bit pattern), 9: 0 = by id, 1 = by number
+      6 | 9 | 14 => l.push(self.page as i64), // 6: signed index (bit pattern), 9: 0 = by id, 1 = by number, 14: type code
       _ => {}
     }
     l.done()
@@ -479,7 +598,7 @@ impl Req {
         has_page = c.bool();
         page = c.u64();
       }
-      6 | 9 => page = c.z().i64() as u64,
+      6 | 9 | 14 => page = c.z().i64() as u64,
       _ => {}
     }
     Req { op, a, has_page, page }
@@ -508,6 +627,11 @@ fn request_path(w: &World, r: &Req) -> String {
     10 => format!("/output/{}", w.outpoints.get(a as usize).copied().unwrap_or(bitcoin::OutPoint { txid: missing(a).txid, vout: 0 })),
     11 => format!("/sat/{a}"),
     12 => pg(format!("/children/{}", w.id(a))),
+    14 => {
+      let addr = w.addresses.get(a as usize).cloned().unwrap_or_else(|| address(9));
+      let q = ["", "?type=any", "?type=cardinal", "?type=inscribed", "?type=runic", "?type=bogus"][(r.page as usize).min(5)];
+      format!("/outputs/{addr}{q}")
+    }
     _ => format!("/r/utxo/{}", w.outpoints.get(a as usize).copied().unwrap_or(bitcoin::OutPoint { txid: missing(a).txid, vout: 0 })),
   }
 }
@@ -526,6 +650,35 @@ fn put_ids(w: &World, l: &mut L, v: &Value) {
   l.push(a.len());
   for x in &a {
     l.push(w.seq_of(x));
+  }
+}
+
+/// rune balances of a JSON `runes` object as (rune index, amount), None for `null` (no rune index)
+fn runes_of(w: &World, v: &Value) -> Option<Vec<(u64, u128)>> {
+  let m = v.as_object()?;
+  let mut out: Vec<(u64, u128)> = m
+    .iter()
+    .map(|(name, pile)| {
+      let ix = w.rune_names.iter().position(|n| n == name).map(|x| x as u64).unwrap_or(MISSING);
+      let amt = pile["amount"].as_u64().map(u128::from).or_else(|| pile["amount"].to_string().parse().ok()).unwrap_or(u128::MAX);
+      (ix, amt)
+    })
+    .collect();
+  out.sort();
+  Some(out)
+}
+
+fn put_runes(w: &World, l: &mut L, v: &Value) {
+  match runes_of(w, v) {
+    None => l.push(0u8),
+    Some(b) => {
+      l.push(1u8);
+      l.push(b.len());
+      for (r, amt) in b {
+        l.push(r);
+        l.push(amt);
+      }
+    }
   }
 }
 
@@ -566,7 +719,9 @@ thread_local! {
 
 fn parse_case(line: &Line) -> (Recipe, Line, Req) {
   let mut c = Cur::new(line);
-  let recipe = Recipe { seed: c.u64(), index_sats: c.bool(), nchildren: c.u64(), nplain: c.u64() };
+  let seed = c.u64();
+  let f = c.u64();
+  let recipe = Recipe { seed, index_sats: f & 1 != 0, ar: f & 2 != 0, nchildren: c.u64(), nplain: c.u64() };
   let start = c.i;
   // skip the tables
   let _isats = c.bool();
@@ -604,6 +759,18 @@ fn parse_case(line: &Line) -> (Recipe, Line, Req) {
   }
   let nsp = c.usize();
   c.i += 3 * nsp;
+  c.i += 1;
+  let na = c.usize();
+  for _ in 0..na {
+    let k = c.usize();
+    c.i += k;
+  }
+  let nrb = c.usize();
+  for _ in 0..nrb {
+    c.i += 1;
+    let k = c.usize();
+    c.i += 2 * k;
+  }
   let tables = line[start..c.i].to_vec();
   let req = Req::parse(&mut c);
   (recipe, tables, req)
@@ -813,6 +980,12 @@ fn run_in(w: &World, r: &Req) -> Outcome {
         let special = t.ops.get(a as usize).map(|o| o.kind != 0).unwrap_or(false);
         // (the value reported for the unbound / null outpoint by /output is the size of its sat ranges: not compared)
         obs.push(if r.op == 10 && special { 0 } else { v["value"].as_u64().unwrap_or(u64::MAX) });
+        put_runes(w, &mut obs, &v["runes"]);
+        // S: exactly the rune balances the index stores for this output
+        let want_runes = if t.index_ar { Some(t.rune_balances.iter().find(|(o, _)| *o as u64 == a).map(|x| x.1.clone()).unwrap_or_default()) } else { None };
+        if runes_of(w, &v["runes"]) != want_runes {
+          bad(format!("{path}: runes {:?} vs balance table {want_runes:?}", v["runes"]));
+        }
         // S: exactly the inscriptions whose satpoint is in this output, in creation order
         let mut want: Vec<u64> = t.entries.iter().filter(|e| e.op as u64 == a).map(|e| u64::from(e.seq)).collect();
         want.sort();
@@ -831,6 +1004,63 @@ fn run_in(w: &World, r: &Req) -> Outcome {
             _ => "/null-outpoint",
           };
         }
+      }
+      14 => {
+        // every listed output with its holdings; listing order (by txid) is not compared
+        let arr = v.as_array().cloned().unwrap_or_default();
+        let mut outs: Vec<(u64, Line)> = arr
+          .iter()
+          .map(|o| {
+            let mut l = L::new();
+            let ix = w.op_of(&o["outpoint"]);
+            l.push(ix);
+            match o["inscriptions"].as_array() {
+              Some(_) => {
+                l.push(1u8);
+                put_ids(w, &mut l, &o["inscriptions"]);
+              }
+              None => l.push(0u8),
+            }
+            l.push(o["value"].as_u64().unwrap_or(u64::MAX));
+            put_runes(w, &mut l, &o["runes"]);
+            (ix, l.done())
+          })
+          .collect();
+        outs.sort_by_key(|x| x.0);
+        obs.push(outs.len());
+        for (_, l) in &outs {
+          obs.0.extend(l.iter().cloned());
+        }
+        // S: an output lists exactly the inscriptions and rune balances it holds; `inscribed` / `runic` are the
+        // outputs with the respective holdings (an output may be both), `cardinal` those with neither
+        let all: Vec<usize> = t.addresses.get(a as usize).cloned().unwrap_or_default();
+        let holds_ins = |o: usize| t.entries.iter().any(|e| e.op == o);
+        let holds_runes = |o: usize| t.rune_balances.iter().any(|(x, b)| *x == o && !b.is_empty());
+        let want: Vec<u64> = all
+          .iter()
+          .filter(|o| match r.page {
+            0 | 1 => true,
+            2 => !holds_ins(**o) && !holds_runes(**o),
+            3 => holds_ins(**o),
+            _ => holds_runes(**o),
+          })
+          .map(|o| *o as u64)
+          .collect();
+        let got: Vec<u64> = outs.iter().map(|x| x.0).collect();
+        if got != want {
+          bad(format!("{path}: outputs {got:?}, the index holds {want:?} in that class"));
+        }
+        for o in &arr {
+          let ix = w.op_of(&o["outpoint"]) as usize;
+          let mut ins: Vec<u64> = t.entries.iter().filter(|e| e.op == ix).map(|e| u64::from(e.seq)).collect();
+          ins.sort();
+          let got_ins: Vec<u64> = o["inscriptions"].as_array().cloned().unwrap_or_default().iter().map(|x| w.seq_of(x)).collect();
+          let bal = t.rune_balances.iter().find(|(x, _)| *x == ix).map(|x| x.1.clone()).unwrap_or_default();
+          if got_ins != ins || runes_of(w, &o["runes"]) != Some(bal) {
+            bad(format!("{path}: holdings of output #{ix} differ from the index"));
+          }
+        }
+        sub = ["/no-type", "/any", "/cardinal", "/inscribed", "/runic", "/bogus"][(r.page as usize).min(5)];
       }
       _ => {
         put_ids(w, &mut obs, &v["inscriptions"]);
@@ -891,6 +1121,7 @@ pub fn gen(rng: &mut Rng, tier: &str) -> Vec<Line> {
     let recipe = Recipe {
       seed: rng.next() >> 8,
       index_sats: if tier == "thorough" { s < 6 } else { s != 5 },
+      ar: s % 6 != 4, // one state of six without address and rune index
       nchildren: [100u64, 101, 99, 200, 201, 199][s % 6],
       nplain: rng.range(2, 5),
     };
@@ -976,9 +1207,14 @@ pub fn gen(rng: &mut Rng, tier: &str) -> Vec<Line> {
       reqs.push(Req { op: 10, a: o as i128, has_page: false, page: 0 });
       reqs.push(Req { op: 13, a: o as i128, has_page: false, page: 0 });
     }
+    for a in 0..3i128 {
+      for ty in 0..6u64 {
+        reqs.push(Req { op: 14, a, has_page: false, page: ty });
+      }
+    }
     let mut head = L::new();
     head.push(recipe.seed);
-    head.push(recipe.index_sats);
+    head.push(u64::from(recipe.index_sats) | (u64::from(recipe.ar) << 1));
     head.push(recipe.nchildren);
     head.push(recipe.nplain);
     let mut head = head.done();
